@@ -431,4 +431,302 @@ theorem portType_hdr (p rest : Str) (hp : p ≠ []) (hpc : ∀ c ∈ p, isAlphaH
     | nil => simp
     | cons x xs => simp [List.takeWhile, hr x rfl]
 
+/-! ### `subinterface_number`, `interface_number`: the lazy groups -/
+
+theorem tail2_nonspace (c : Char) (r : Str) (hc : isSpace c = false) : tail2 (c :: r) = false := by
+  unfold tail2
+  rw [lex_cons_nonspace c r hc]
+  obtain ⟨g, ts⟩ := lex r
+  cases g <;> cases ts <;> simp [consWord]
+
+def TailOk (tl : Str) : Prop := tl = [] ∨ (∃ t, tl = ' ' :: t) ∧ tail2 tl = true
+
+theorem tailOk_tail2 (tl : Str) (h : TailOk tl) : tail2 tl = true := by
+  rcases h with rfl | ⟨_, h⟩
+  · simp [tail2, lex]
+  · exact h
+
+theorem lazySub_cons (acc : Str) (c : Char) (r : Str) :
+    lazySub acc (c :: r) = (match subEnd (c :: r) with | some e => acc ++ e | none => lazySub (acc ++ [c]) r) := by
+  rw [lazySub]; rfl
+
+/-- `subEnd` on a text whose first two characters are no whitespace -/
+theorem subEnd_two (x y : Char) (rest : Str) (hx : isSpace x = false) (hy : isSpace y = false) :
+    subEnd (x :: y :: rest) =
+      if x = '.' ∧ isDigit y = true ∧ tail2 rest = true then some ['.', y] else none := by
+  have h1 := tail2_nonspace x (y :: rest) hx
+  have h2 := tail2_nonspace y rest hy
+  by_cases hdot : x = '.'
+  · subst hdot; simp [subEnd, h2]
+  · unfold subEnd
+    split
+    · rename_i heq; cases heq; exact absurd rfl hdot
+    · rename_i heq; cases heq
+    · rename_i d r2 _ _ heq; cases heq; simp [h1, h2, hdot]
+    · rename_i heq; cases heq
+
+/-- `subEnd` on one non-whitespace character followed by the tail -/
+theorem subEnd_one (x : Char) (tl : Str) (hx : isSpace x = false) (ht : TailOk tl) :
+    subEnd (x :: tl) = if x = '.' then some ['.'] else if isDigit x = true then some [x] else none := by
+  have h1 := tail2_nonspace x tl hx
+  have h2 := tailOk_tail2 tl ht
+  have hd' : isDigit ' ' = false := by decide
+  rcases ht with rfl | ⟨⟨t, rfl⟩, _⟩
+  · by_cases hdot : x = '.'
+    · subst hdot; simp [subEnd]
+    · unfold subEnd
+      split
+      · rename_i heq; cases heq
+      · rename_i heq; cases heq; exact absurd rfl hdot
+      · rename_i d r2 _ _ heq; cases heq; simp [h1, h2, hdot]
+      · rename_i heq; cases heq
+  · by_cases hdot : x = '.'
+    · subst hdot; simp [subEnd, hd', h2]
+    · unfold subEnd
+      split
+      · rename_i heq; cases heq; exact absurd rfl hdot
+      · rename_i heq; cases heq
+      · rename_i d r2 _ _ heq; cases heq; simp [h1, h2, hdot]
+      · rename_i heq; cases heq
+
+theorem subEnd_tail (tl : Str) (h : TailOk tl) : subEnd tl = some [] := by
+  have h2 := tailOk_tail2 tl h
+  rcases h with rfl | ⟨⟨t, rfl⟩, _⟩
+  · rfl
+  · have hd : isDigit ' ' = false := by decide
+    unfold subEnd
+    split
+    · rename_i heq; cases heq
+    · rename_i heq; cases heq
+    · rename_i d r2 _ _ heq; cases heq; simp [hd, h2]
+    · rename_i heq; cases heq
+
+theorem lazySub_tail (acc tl : Str) (ht : TailOk tl) : lazySub acc tl = acc := by
+  cases tl with
+  | nil => rfl
+  | cons c r => rw [lazySub_cons, subEnd_tail _ ht]; simp
+
+/-- the lazy group of `subinterface_number` runs to the end of the number word -/
+theorem lazySub_all (r : Str) (hr : ∀ c ∈ r, isSpace c = false) (tl : Str) (ht : TailOk tl) (acc : Str) :
+    lazySub acc (r ++ tl) = acc ++ r := by
+  induction r generalizing acc with
+  | nil => simpa using lazySub_tail acc tl ht
+  | cons x r ih =>
+    have hx := hr x (by simp)
+    have ih' := ih (fun c hc => hr c (by simp [hc]))
+    cases r with
+    | nil =>
+      simp only [List.cons_append, List.nil_append] at ih' ⊢
+      rw [lazySub_cons, subEnd_one x tl hx ht]
+      by_cases hdot : x = '.'
+      · simp [hdot]
+      · by_cases hd : isDigit x = true
+        · simp [hdot, hd]
+        · simp [hdot, hd, lazySub_tail _ tl ht]
+    | cons y r' =>
+      have hy := hr y (by simp)
+      simp only [List.cons_append] at ih' ⊢
+      rw [lazySub_cons, subEnd_two x y _ hx hy]
+      by_cases hstop : x = '.' ∧ isDigit y = true ∧ tail2 (r' ++ tl) = true
+      · have hr' : r' = [] := by
+          cases r' with
+          | nil => rfl
+          | cons z zs =>
+            have := tail2_nonspace z (zs ++ tl) (hr z (by simp))
+            simp [this] at hstop
+        subst hr'
+        obtain ⟨h1, h2, h3⟩ := hstop
+        subst h1
+        simp only [List.nil_append] at h3
+        simp [h2, h3]
+      · simp only [hstop, if_false]
+        rw [ih']; simp
+
+
+theorem dropWhile_append_stop {α : Type} (p : α → Bool) (l r : List α) (hl : ∀ x ∈ l, p x = true)
+    (hr : ∀ x, r.head? = some x → p x = false) : (l ++ r).dropWhile p = r := by
+  induction l with
+  | nil =>
+    cases r with
+    | nil => rfl
+    | cons x xs => simp [List.dropWhile, hr x rfl]
+  | cons a l ih => simp [List.dropWhile, hl a (by simp), ih (fun x hx => hl x (by simp [hx]))]
+
+theorem takeWhile_append_stop {α : Type} (p : α → Bool) (l r : List α) (hl : ∀ x ∈ l, p x = true)
+    (hr : ∀ x, r.head? = some x → p x = false) : (l ++ r).takeWhile p = l := by
+  induction l with
+  | nil =>
+    cases r with
+    | nil => rfl
+    | cons x xs => simp [List.takeWhile, hr x rfl]
+  | cons a l ih => simp [List.takeWhile, hl a (by simp), ih (fun x hx => hl x (by simp [hx]))]
+
+/-- **`subinterface_number`** of `interface <prefix><digits><more>[ <class words>]`: the whole number
+word `digits ++ more` (e.g. `2/0.100`, `1/0:3.7`), for a letters/hyphen prefix, a non-empty digit
+run, `more` without whitespace and not starting with a digit, and a tail the pattern accepts. -/
+theorem subinterfaceNumber_hdr (p ds more tl : Str) (hp : p ≠ []) (hpc : ∀ c ∈ p, isAlphaHyphen c = true)
+    (hds : ds ≠ []) (hdd : ∀ c ∈ ds, isDigit c = true)
+    (hm : ∀ c ∈ more, isSpace c = false) (hmh : ∀ c, more.head? = some c → isDigit c = false)
+    (ht : TailOk tl) :
+    subinterfaceNumber (kInterface ++ ' ' :: p ++ (ds ++ more ++ tl)) = some (ds ++ more) := by
+  obtain ⟨c, p', rfl⟩ : ∃ c p', p = c :: p' := by cases p with | nil => exact absurd rfl hp | cons c p' => exact ⟨c, p', rfl⟩
+  obtain ⟨d0, ds', rfl⟩ : ∃ d0 ds', ds = d0 :: ds' := by cases ds with | nil => exact absurd rfl hds | cons a b => exact ⟨a, b, rfl⟩
+  have hc : isSpace c = false := alphaHyphen_not_space c (hpc c (by simp))
+  have hd0 : isDigit d0 = true := hdd d0 (by simp)
+  have hd0a : isAlphaHyphen d0 = false := by
+    unfold isDigit at hd0; unfold isAlphaHyphen
+    simp only [Bool.and_eq_true, decide_eq_true_eq] at hd0
+    have : d0 ≠ '-' := by intro e; subst e; simp at hd0
+    simp [this]; omega
+  have hint : isIntf (kInterface ++ ' ' :: (c :: p') ++ (d0 :: ds' ++ more ++ tl)) = some true := by
+    have := isIntf_hdr c p' hc (d0 :: ds' ++ more ++ tl)
+    simpa using this
+  have hsp : isSpace ' ' = true := by decide
+  have haft : afterInterface (kInterface ++ ' ' :: (c :: p') ++ (d0 :: ds' ++ more ++ tl)) =
+      some ((c :: p') ++ (d0 :: ds' ++ more ++ tl)) := by
+    simp [afterInterface, kInterface_chars, List.isPrefixOf, hsp, List.dropWhile, hc]
+  have hrest : ∀ x, (d0 :: ds' ++ more ++ tl).head? = some x → isAlphaHyphen x = false := by
+    intro x hx; simp at hx; subst hx; exact hd0a
+  have hnp : numberPart (kInterface ++ ' ' :: (c :: p') ++ (d0 :: ds' ++ more ++ tl)) = some (d0 :: ds' ++ more ++ tl) := by
+    unfold numberPart
+    rw [haft]
+    simp only
+    rw [takeWhile_append_stop _ _ _ hpc hrest, dropWhile_append_stop _ _ _ hpc hrest]
+    have : isSpace d0 = false := Range.isSpace_of_isDigit d0 hd0
+    simp [List.dropWhile, this, hd0]
+  -- the digit run stops at `more` (or at the tail)
+  have hstop : ∀ x, (more ++ tl).head? = some x → isDigit x = false := by
+    intro x hx
+    cases more with
+    | nil =>
+      rcases ht with rfl | ⟨⟨t, rfl⟩, _⟩
+      · simp at hx
+      · simp at hx; subst hx; decide
+    | cons m ms => simp at hx; subst hx; exact hmh m rfl
+  unfold subinterfaceNumber
+  rw [hint, hnp]
+  simp only
+  have e : d0 :: ds' ++ more ++ tl = (d0 :: ds') ++ (more ++ tl) := by simp
+  rw [e, takeWhile_append_stop _ _ _ hdd hstop, dropWhile_append_stop _ _ _ hdd hstop,
+    lazySub_all more hm tl ht]
+
+
+/-! ### `interface_number` -/
+
+theorem tail1_false (n : Nat) (x : Char) (rest : Str) (hx : isSpace x = false) (hdot : x ≠ '.') :
+    tail1 n (x :: rest) = false := by
+  cases n with
+  | zero => simpa [tail1] using tail2_nonspace x rest hx
+  | succ n =>
+    rw [tail1]
+    · simp [tail2_nonspace x rest hx]
+    · intro r1 he; cases he; exact hdot rfl
+
+theorem tail1_tail (n : Nat) (tl : Str) (ht : TailOk tl) : tail1 n tl = true := by
+  cases n <;> simp [tail1, tailOk_tail2 tl ht]
+
+/-- the optional `.sub` suffix -/
+def dotSub : Option Str → Str
+  | some sub => '.' :: sub
+  | none => []
+
+theorem tail1_dotSub (n : Nat) (sub : Option Str) (tl : Str) (ht : TailOk tl)
+    (hs : ∀ s, sub = some s → s ≠ [] ∧ ∀ c ∈ s, isDigit c = true) (hn : 1 ≤ n) :
+    tail1 n (dotSub sub ++ tl) = true := by
+  cases sub with
+  | none => simpa [dotSub] using tail1_tail n tl ht
+  | some s =>
+    obtain ⟨hne, hd⟩ := hs s rfl
+    have hstop : ∀ x, tl.head? = some x → isDigit x = false := by
+      intro x hx
+      rcases ht with rfl | ⟨⟨t, rfl⟩, _⟩
+      · simp at hx
+      · simp at hx; subst hx; decide
+    obtain ⟨m, rfl⟩ : ∃ m, n = m + 1 := ⟨n - 1, by omega⟩
+    simp only [dotSub, List.cons_append]
+    rw [tail1]
+    simp only [takeWhile_append_stop _ _ _ hd hstop, dropWhile_append_stop _ _ _ hd hstop, tail1_tail m tl ht]
+    cases s with
+    | nil => exact absurd rfl hne
+    | cons a b => simp
+
+theorem lazyNum_mid (mid rem : Str) (hm : ∀ c ∈ mid, isSpace c = false ∧ c ≠ '.')
+    (hrem : rem = [] ∨ tail1 rem.length rem = true) (acc : Str) :
+    lazyNum acc (mid ++ rem) = acc ++ mid := by
+  induction mid generalizing acc with
+  | nil =>
+    simp only [List.nil_append, List.append_nil]
+    cases rem with
+    | nil => rfl
+    | cons c r =>
+      rcases hrem with h | h
+      · cases h
+      · have h' : tail1 (r.length + 1) (c :: r) = true := by simpa using h
+        simp [lazyNum, h']
+  | cons x mid ih =>
+    have hx := hm x (by simp)
+    simp only [List.cons_append]
+    rw [lazyNum, tail1_false _ x _ hx.1 hx.2]
+    simp only [Bool.false_eq_true, if_false]
+    rw [ih (fun c hc => hm c (by simp [hc]))]; simp
+
+/-- **`interface_number`** of `interface <prefix><digits><mid>[.<sub>][ <class words>]`: the number
+word without the trailing subinterface, `digits ++ mid` (e.g. `2/0` for `2/0.100`, `1/0:3` for
+`1/0:3.7`), where `mid` has no whitespace and no dot and does not start with a digit. -/
+theorem interfaceNumber_hdr (p ds mid tl : Str) (sub : Option Str) (hp : p ≠ [])
+    (hpc : ∀ c ∈ p, isAlphaHyphen c = true) (hds : ds ≠ []) (hdd : ∀ c ∈ ds, isDigit c = true)
+    (hm : ∀ c ∈ mid, isSpace c = false ∧ c ≠ '.') (hmh : ∀ c, mid.head? = some c → isDigit c = false)
+    (hs : ∀ s, sub = some s → s ≠ [] ∧ ∀ c ∈ s, isDigit c = true) (ht : TailOk tl) :
+    interfaceNumber (kInterface ++ ' ' :: p ++ (ds ++ (mid ++ (dotSub sub ++ tl)))) = some (ds ++ mid) := by
+  obtain ⟨c, p', rfl⟩ : ∃ c p', p = c :: p' := by cases p with | nil => exact absurd rfl hp | cons c p' => exact ⟨c, p', rfl⟩
+  obtain ⟨d0, ds', rfl⟩ : ∃ d0 ds', ds = d0 :: ds' := by cases ds with | nil => exact absurd rfl hds | cons a b => exact ⟨a, b, rfl⟩
+  have hc : isSpace c = false := alphaHyphen_not_space c (hpc c (by simp))
+  have hd0 : isDigit d0 = true := hdd d0 (by simp)
+  have hd0a : isAlphaHyphen d0 = false := by
+    unfold isDigit at hd0; unfold isAlphaHyphen
+    simp only [Bool.and_eq_true, decide_eq_true_eq] at hd0
+    have : d0 ≠ '-' := by intro e; subst e; simp at hd0
+    simp [this]; omega
+  have hint : isIntf (kInterface ++ ' ' :: (c :: p') ++ (d0 :: ds' ++ (mid ++ (dotSub sub ++ tl)))) = some true := by
+    have := isIntf_hdr c p' hc (d0 :: ds' ++ (mid ++ (dotSub sub ++ tl)))
+    simpa using this
+  have hsp : isSpace ' ' = true := by decide
+  have haft : afterInterface (kInterface ++ ' ' :: (c :: p') ++ (d0 :: ds' ++ (mid ++ (dotSub sub ++ tl)))) =
+      some ((c :: p') ++ (d0 :: ds' ++ (mid ++ (dotSub sub ++ tl)))) := by
+    simp [afterInterface, kInterface_chars, List.isPrefixOf, hsp, List.dropWhile, hc]
+  have hrest : ∀ x, (d0 :: ds' ++ (mid ++ (dotSub sub ++ tl))).head? = some x → isAlphaHyphen x = false := by
+    intro x hx; simp at hx; subst hx; exact hd0a
+  have hnp : numberPart (kInterface ++ ' ' :: (c :: p') ++ (d0 :: ds' ++ (mid ++ (dotSub sub ++ tl)))) =
+      some (d0 :: ds' ++ (mid ++ (dotSub sub ++ tl))) := by
+    unfold numberPart
+    rw [haft]
+    simp only
+    rw [takeWhile_append_stop _ _ _ hpc hrest, dropWhile_append_stop _ _ _ hpc hrest]
+    have : isSpace d0 = false := Range.isSpace_of_isDigit d0 hd0
+    simp [List.dropWhile, this, hd0]
+  have hstop : ∀ x, (mid ++ (dotSub sub ++ tl)).head? = some x → isDigit x = false := by
+    intro x hx
+    cases mid with
+    | cons m ms => simp at hx; subst hx; exact hmh m rfl
+    | nil =>
+      cases sub with
+      | some s => simp [dotSub] at hx; subst hx; decide
+      | none =>
+        rcases ht with rfl | ⟨⟨t, rfl⟩, _⟩
+        · simp [dotSub] at hx
+        · simp [dotSub] at hx; subst hx; decide
+  have hrem : (dotSub sub ++ tl) = [] ∨ tail1 (dotSub sub ++ tl).length (dotSub sub ++ tl) = true := by
+    by_cases he : (dotSub sub ++ tl) = []
+    · exact Or.inl he
+    · right
+      apply tail1_dotSub _ sub tl ht hs
+      cases h : (dotSub sub ++ tl) with
+      | nil => exact absurd h he
+      | cons a b => simp
+  unfold interfaceNumber
+  rw [hint, hnp]
+  simp only
+  rw [takeWhile_append_stop _ _ _ hdd hstop, dropWhile_append_stop _ _ _ hdd hstop,
+    lazyNum_mid mid _ hm hrem]
+
 end Ccp.Ios
